@@ -86,10 +86,37 @@ Print Assumptions C14_orig_refuted.
 
 (* Each repair is needed, and two tempting alternatives deadlock. *)
 Theorem C14_repairs_needed :
-  stuck (V false true true false false) 1 1 w_stop_while_paused /\
-  stuck (V true false false false false) 1 1 w_unmatched_resume /\
-  stuck (V true true true true false) 1 1 w_unsubscribe_race /\
-  stuck (V true false true false false) 2 3 w_two_resumes /\
-  stuck (V true true true true true) 1 1 w_unsub_mutex.
+  stuck (V false true true true false false) 1 1 w_stop_while_paused /\
+  stuck (V true false false false false false) 1 1 w_unmatched_resume /\
+  stuck (V true true true true true false) 1 1 w_unsubscribe_race /\
+  stuck (V true false false true false false) 2 3 w_two_resumes /\
+  stuck (V true true true true true true) 1 1 w_unsub_mutex.
 Proof. exact repairs_needed_lemma. Qed.
 Print Assumptions C14_repairs_needed.
+
+(* A Pause invoked when every Resume in progress is already collecting (none still before its
+   first step), and not followed by a new Resume invocation, leaves the manager paused once all
+   calls have returned - under every schedule (with C14_calls_complete: every live worker is then
+   acknowledging). *)
+Theorem C14_pause_sticks : forall n m ls0 s b s1 ls s',
+  run fixed (init n m) ls0 = Some s ->
+  (forall c, c < nc s -> ct s c <> CRStart) ->
+  step fixed s (LCall b KPause) = Some s1 ->
+  run fixed s1 ls = Some s' ->
+  (forall l c, In l ls -> l <> LCall c KResume) ->
+  (forall c, c < nc s' -> ct s' c = CIdle) ->
+  paused s' = true.
+Proof. exact pause_sticks_lemma. Qed.
+Print Assumptions C14_pause_sticks.
+
+(* Pause must hold the mutex too: with the mutex in Resume only, a Pause issued while a Resume is
+   waiting for a busy worker returns having done nothing (pause_reaches_all fails at its return),
+   and the pipeline ends up running although the last invocation was a Pause. *)
+Theorem C14_pause_mutex_needed :
+  (exists s s', run v_no_pause_mutex (init 2 2) w_pause_nomutex = Some s /\
+                step v_no_pause_mutex s (LPauseBegin 1) = Some s' /\
+                pause_returns s (LPauseBegin 1) s' /\ paused s' = true /\ idle (wk s' 0)) /\
+  (exists t, run v_no_pause_mutex (init 2 2) (w_pause_nomutex ++ w_pause_nomutex_end) = Some t /\
+             quiescent v_no_pause_mutex t /\ ct t 0 = CIdle /\ ct t 1 = CIdle /\ paused t = false).
+Proof. exact pause_without_mutex_refuted. Qed.
+Print Assumptions C14_pause_mutex_needed.
